@@ -60,6 +60,15 @@ LitBytes(ts) ==
                              ELSE F[k-1] + (IF IsLit(ts[k]) THEN Len(ts[k].lit) ELSE 0)
   IN F[Len(ts)]
 
+(* C03: the checksum gate seen from outside: a file transfer that reports  *)
+(* success left the new content, one that failed left the previous content *)
+(* ("old"; "absent" when there was none); nothing else is ever visible     *)
+(* ("oldnew": previous and new content are the same bytes)                  *)
+GateOK(res, content) ==
+  /\ res \in {"ok", "corrupt"}
+  /\ res = "ok" => content \in {"new", "oldnew"}
+  /\ res = "corrupt" => content \in {"old", "absent", "oldnew"}
+
 (* C16: literal data a greedy sender may spend on a file that differs from *)
 (* the receiver's copy by `edits` local edits inserting `ins` new bytes:   *)
 (* per edit at most the unmatched head and tail of the blocks it touches   *)
